@@ -364,6 +364,78 @@ Definition mul_overflow_both_zero (M : Z) (a b : interval) : bool :=
   | _, _ => false
   end.
 
+
+(* satisfy_greater's constraint: left > right (strict) or left >= right *)
+Definition gt_sem (strict : bool) (x y : Z) : bool := if strict then y <? x else y <=? x.
+
+(* ---------- expression trees: bottom-up bound evaluation (ExprIntervalGraph::evaluate_bounds computes
+   the same intervals on the DAG of the expression: every node's interval is apply_operator of its
+   children's; leaves are column ranges or singleton literals) ---------- *)
+Inductive aexp := ACol (i : nat) | ALit (v : Z) | ABin (op : aop) (l r : aexp).
+Inductive pexp := PCmp (op : cop) (l r : aexp) | PAnd (l r : pexp).
+
+(* the value of an expression on a row; None = the row makes it error (overflow, division by zero) *)
+Fixpoint aeval (M : Z) (env : nat -> Z) (e : aexp) : option Z :=
+  match e with
+  | ACol i => Some (env i)
+  | ALit v => Some v
+  | ABin op l r =>
+      match aeval M env l, aeval M env r with
+      | Some x, Some y =>
+          match arith_sem op x y with
+          | Some v => if in_range M v then Some v else None
+          | None => None
+          end
+      | _, _ => None
+      end
+  end.
+Fixpoint peval (M : Z) (env : nat -> Z) (p : pexp) : option bool :=
+  match p with
+  | PCmp op l r =>
+      match aeval M env l, aeval M env r with
+      | Some x, Some y => Some (cmp_sem op x y)
+      | _, _ => None
+      end
+  | PAnd l r =>
+      match peval M env l, peval M env r with
+      | Some a, Some b => Some (a && b)
+      | _, _ => None
+      end
+  end.
+
+Fixpoint abounds (M : Z) (ranges : nat -> interval) (e : aexp) : interval :=
+  match e with
+  | ACol i => ranges i
+  | ALit v => (Some v, Some v)
+  | ABin op l r => apply_arith M op (abounds M ranges l) (abounds M ranges r)
+  end.
+Fixpoint pbounds (M : Z) (ranges : nat -> interval) (p : pexp) : bint :=
+  match p with
+  | PCmp op l r => apply_cmp op (abounds M ranges l) (abounds M ranges r)
+  | PAnd l r => band (pbounds M ranges l) (pbounds M ranges r)
+  end.
+
+(* no node of the tree meets the unsound mul/div inputs; literals are values of the type *)
+Definition op_node_ok (M : Z) (op : aop) (a b : interval) : Prop :=
+  match op with
+  | Multiply => mul_overflow_both_zero M a b = false
+  | Divide => zero_topped a = false /\ zero_topped b = false
+  | _ => True
+  end.
+Fixpoint anode_ok (M : Z) (ranges : nat -> interval) (e : aexp) : Prop :=
+  match e with
+  | ACol _ => True
+  | ALit v => in_range M v = true
+  | ABin op l r =>
+      (anode_ok M ranges l) /\ (anode_ok M ranges r) /\
+      (op_node_ok M op (abounds M ranges l) (abounds M ranges r))
+  end.
+Fixpoint pnode_ok (M : Z) (ranges : nat -> interval) (p : pexp) : Prop :=
+  match p with
+  | PCmp _ l r => anode_ok M ranges l /\ anode_ok M ranges r
+  | PAnd l r => pnode_ok M ranges l /\ pnode_ok M ranges r
+  end.
+
 (* ====================== correspondence cases ====================== *)
 Definition obound_eqb := zopt_eqb.
 Definition oi_eqb (a b : option interval) : bool := opt_eqb ieq a b.
